@@ -331,7 +331,9 @@ pub enum Stmt {
     Let { name: String, mutable: bool, ty: Ty, e: Expr },
     Assign(LValue, Expr),
     OpAssign(BinOp, LValue, Ty, Expr),
-    While { counter: String, limit: u64, body: Vec<Stmt> },
+    /// `style`: 0 = `while i < limit { i += 1; .. }`, 1 = `while true { if i == limit { break; } i += 1; .. }`
+    /// (same iterations; different control-flow shape in the IR)
+    While { counter: String, limit: u64, body: Vec<Stmt>, style: u8 },
     If(Expr, Vec<Stmt>, Vec<Stmt>),
     Break,
     Continue,
@@ -619,10 +621,18 @@ impl<'a> Printer<'a> {
                 let ls = self.lvalue(l);
                 self.line(&format!("{ls} {}= {es};", op.sym()));
             }
-            Stmt::While { counter, limit, body } => {
+            Stmt::While { counter, limit, body, style } => {
                 self.line(&format!("let mut {counter}: u64 = 0u64;"));
-                self.line(&format!("while {counter} < {limit}u64 {{"));
-                self.ind += 1;
+                if *style == 1 {
+                    self.line("while true {");
+                    self.ind += 1;
+                    self.line(&format!("if {counter} == {limit}u64 {{"));
+                    self.line("    break;");
+                    self.line("}");
+                } else {
+                    self.line(&format!("while {counter} < {limit}u64 {{"));
+                    self.ind += 1;
+                }
                 self.line(&format!("{counter} += 1u64;"));
                 for s in body {
                     self.stmt(s);
@@ -1015,7 +1025,7 @@ impl<'a> Interp<'a> {
                 }
                 Ok(Flow::Normal)
             }
-            Stmt::While { counter, limit, body } => {
+            Stmt::While { counter, limit, body, .. } => {
                 env.last_mut().unwrap().insert(counter.clone(), Val::Int(big(0)));
                 loop {
                     let c = lookup(env, counter).u64();
